@@ -267,7 +267,7 @@ def transpose_adjoint(ctx):
         for meth, want_c in (("_transpose", False), ("_adjoint", True)):
             fn = m.fn("%s.%s" % (cname, meth))
             rets = [s for s in ast.walk(fn) if isinstance(s, ast.Return) and s.value is not None]
-            ok, why = False, "no single return"
+            ok, why = None, "no single return"
             if len(rets) == 1:
                 v = roles.inline(rets[0].value, roles.Defs(fn))
                 if cname == "DiagonalOperator" and unparse(v) == "self" and not want_c:
@@ -292,7 +292,7 @@ def transpose_adjoint(ctx):
     for meth, want_c in (("_transpose", False), ("_adjoint", True)):
         fn = m.fn("DiscreteRankOneOperator." + meth)
         rets = [s for s in ast.walk(fn) if isinstance(s, ast.Return) and s.value is not None]
-        ok, why = False, "no single return of DiscreteRankOneOperator(column, row)"
+        ok, why = None, "no single return of DiscreteRankOneOperator(column, row)"
         if len(rets) == 1 and isinstance(rets[0].value, ast.Call) and unparse(rets[0].value.func) == "DiscreteRankOneOperator" and len(rets[0].value.args) == 2 and not rets[0].value.keywords:
             got = [_tc(roles.inline(a, roles.Defs(fn)), "‹none›") for a in rets[0].value.args]
             ok = [slots.get(g[0]) for g in got] == [pa[1], pa[0]] and all(g[2] == want_c for g in got)
@@ -307,7 +307,7 @@ def transpose_adjoint(ctx):
     ip = arg_names(init)[1:]
     rng = arg_names(ft)[1]
     rets = [s for s in ast.walk(ft) if isinstance(s, ast.Return) and s.value is not None]
-    ok, why = False, "no single return of BoundaryOperatorWithAssembler(...)"
+    ok, why = None, "no single return of BoundaryOperatorWithAssembler(...)"
     if len(rets) == 1 and isinstance(rets[0].value, ast.Call) and unparse(rets[0].value.func) == "BoundaryOperatorWithAssembler":
         c = rets[0].value
         got = dict(zip(ip, [unparse(a).replace(" ", "") for a in c.args]))
@@ -341,7 +341,7 @@ def blocked_to_dense(ctx):
     fn = ctx.repo.mod(BL).fn("BlockedDiscreteOperator.to_dense")
     defs = roles.Defs(fn)
     ret = [s for s in ast.walk(fn) if isinstance(s, ast.Return)]
-    ok, why = False, "not of the form vstack(rows) with rows built per block row"
+    ok, why = None, "not of the form vstack(rows) with rows built per block row"
     if len(ret) == 1 and isinstance(ret[0].value, ast.Call) and unparse(ret[0].value.func).split(".")[-1] == "vstack" and len(ret[0].value.args) == 1 and isinstance(ret[0].value.args[0], ast.Name):
         rows = ret[0].value.args[0].id
         loops = [s for s in fn.body if isinstance(s, ast.For) and isinstance(s.target, ast.Name) and unparse(s.iter).replace(" ", "") == "range(self._ndims[0])"]
